@@ -148,6 +148,8 @@ where
                 let (key, winv, rng) = &mut self.to_be_processed[j];
                 let mut h = (*winv) * (i - 1) as f64;
                 if h < self.maxvaluetracker.get_max_value() {
+                    #[cfg(feature = "verif_hooks")]
+                    crate::verif::tick(crate::verif::Event::Pmh3aSecondPass);
                     h += (*winv) * self.exp01.sample(rng);
                     let k = unif0m.sample(rng);
                     if h < self.maxvaluetracker.get_value(k) {
@@ -234,6 +236,8 @@ where
                 let (key, winv, rng) = &mut self.to_be_processed[j];
                 let mut h = (*winv) * (i - 1) as f64;
                 if h < self.maxvaluetracker.get_max_value() {
+                    #[cfg(feature = "verif_hooks")]
+                    crate::verif::tick(crate::verif::Event::Pmh3aSecondPass);
                     h += (*winv) * self.exp01.sample(rng);
                     let k = unif0m.sample(rng);
                     if h < self.maxvaluetracker.get_value(k) {
@@ -256,6 +260,12 @@ where
     /// return final signature.
     pub fn get_signature(&self) -> &Vec<D> {
         &self.signature
+    }
+
+    /// verification hook : per position register values
+    #[cfg(feature = "verif_hooks")]
+    pub fn verif_registers(&self) -> Vec<f64> {
+        (0..self.m).map(|k| self.maxvaluetracker.get_value(k)).collect()
     }
 } // end of ProbMinHash3aSha
 
